@@ -207,6 +207,73 @@ Proof.
   cbn [map deref]. f_equal. apply IH.
 Qed.
 
+(* ---------- what a caller's CSVWriter is handed ---------- *)
+
+(* a reader that does not reuse its record answers every Read with a private slice, and stays such a reader *)
+Lemma read_fresh r st : reader_reuses r = false ->
+  match rd_read r st with
+  | (RdRec h, r', _) => (exists rec, h = HVal rec) /\ reader_reuses r' = false
+  | _ => True
+  end.
+Proof.
+  destruct r as [pending fin reuse|rows]; cbn [reader_reuses]; intros H.
+  - subst reuse. destruct pending as [|rec rest]; cbn [rd_read].
+    + destruct fin; exact I.
+    + split; [exists rec; reflexivity|reflexivity].
+  - destruct rows as [|rec rest]; cbn [rd_read]; [exact I|].
+    split; [exists rec; reflexivity|reflexivity].
+Qed.
+
+Lemma skip_loop_fresh k : forall r st r' st', reader_reuses r = false ->
+  skip_loop k r st = SkCont r' st' -> reader_reuses r' = false.
+Proof.
+  induction k as [|k IH]; intros r st r' st' Hf H; cbn [skip_loop] in H.
+  - inversion H; subst; exact Hf.
+  - pose proof (read_fresh r st Hf) as Hr. destruct (rd_read r st) as [[res r1] st1].
+    destruct res as [h| |e]; try discriminate H.
+    destruct Hr as [_ Hf1]. exact (IH _ _ _ _ Hf1 H).
+Qed.
+
+(* the copy loop into a writer that keeps the very slices it is handed *)
+Lemma pipe_loop_retaining_fresh fuel : forall r w st w' st', reader_reuses r = false -> all_values (wtr_rows w) ->
+  pipe_loop_with false fuel r w st = PDone w' st' -> all_values (wtr_rows w').
+Proof.
+  induction fuel as [|f IH]; intros r w st w' st' Hf Hw H; cbn [pipe_loop_with] in H; [discriminate H|].
+  pose proof (read_fresh r st Hf) as Hr. destruct (rd_read r st) as [[res r1] st1].
+  destruct res as [h| |e].
+  - destruct Hr as [(rec & ->) Hf1]. apply (IH _ _ _ _ _ Hf1) in H; [exact H|].
+    destruct w as [written|rows]; cbn [w_write_with wtr_rows] in *; [constructor|].
+    apply Forall_app. split; [exact Hw|]. constructor; [|constructor]. exists rec. reflexivity.
+  - inversion H; subst; exact Hw.
+  - discriminate H.
+Qed.
+
+(* without ReuseRecord, whatever pipeCSV hands to a writer that retains the slices (any store before, any skip count):
+   no two of them share a buffer and they read the same in every later state of the store *)
+Lemma handed_records_private r st k w' st' : reader_reuses r = false ->
+  pipe_csv_with false (WTable []) r st k = PDone w' st' ->
+  shares_buffer (wtr_rows w') = false /\ (forall later, w_records w' later = w_records w' st').
+Proof.
+  intros Hf H. unfold pipe_csv_with in H.
+  assert (Hv : all_values (wtr_rows w')).
+  { destruct (skip_loop (skip_count k r) r st) as [|e|r1 st1] eqn:Hs.
+    - inversion H; subst. constructor.
+    - discriminate H.
+    - apply (pipe_loop_retaining_fresh (S (remaining r1)) r1 (WTable []) st1 w' st'); [|constructor|exact H].
+      exact (skip_loop_fresh _ _ _ _ _ Hf Hs). }
+  split; [apply all_values_no_sharing; exact Hv|].
+  intros later. destruct w' as [written|rows]; cbn [w_records wtr_rows] in *; [reflexivity|].
+  apply all_values_store_independent. exact Hv.
+Qed.
+
+(* so the aliasing flag of a caller's CSVWriter is never raised *)
+Lemma handed_alias_false r k : handed_alias r k = false.
+Proof.
+  unfold handed_alias. destruct (reader_reuses r) eqn:Hf; [reflexivity|].
+  destruct (pipe_csv_with false (WTable []) r [] k) as [e|w st|] eqn:H; try reflexivity.
+  exact (proj1 (handed_records_private r [] k w st Hf H)).
+Qed.
+
 (* ---------- the destination table ---------- *)
 
 Lemma table_resets_len_true : table_resets_len = true.
@@ -308,7 +375,7 @@ Section Oracles.
     - rewrite (via_pipe_bytes_spec _ _ _ _ _ Hc). destruct (p_end pr); reflexivity.
     - pose proof (pipe_csv_spec (WCsv []) _ [] (o_skip o) _ _ Hc) as H.
       destruct (p_end pr) as [e|]; [rewrite H; reflexivity|]. destruct H as (st' & ->).
-      rewrite w_records_fold. reflexivity.
+      rewrite w_records_fold, handed_alias_false. reflexivity.
     - rewrite (via_pipe_bytes_spec _ _ _ _ _ Hc). destruct (p_end pr); reflexivity.
     - rewrite (via_buffer_bytes_spec _ _ _ _ _ Hc). destruct (p_end pr); reflexivity.
     - rewrite (via_buffer_bytes_spec _ _ _ _ _ Hc). destruct (p_end pr); reflexivity.
